@@ -187,6 +187,12 @@ def _build_c14(inputs):
         raw, layout = L.aw.build_akai_image_ex(model)
         res = {}
         with L.Workdir() as w:
+            # "unused": slots of the table that hold no file (24 zero bytes, as a deleted file leaves them) - in the reference image too
+            b0 = bytearray(raw)
+            for u in inputs.get("unused", []):
+                for o in L.aw.entry_byte_offsets(layout, 0, 0, u):
+                    b0[o] = 0
+            raw = bytes(b0)
             for tag, data in (("base", raw), ("damaged", None)):
                 if data is None:
                     b = bytearray(raw)
@@ -209,14 +215,15 @@ def _oracle_c14(inputs, kind, val, env):
         return []
     bad = []
     names = [f["name"] for f in inputs["model"]["partitions"][0]["volumes"][0]["files"]]
+    unused = set(inputs.get("unused", []))
     i = inputs["entry"]
     base, dmg = val["base"], val["damaged"]
-    if base["error"] or len(base["files"]) != len(names):
+    if base["error"] or len(base["files"]) != len(names) - len(unused):
         return [f"reference-run-failed({base['error']}, {sorted(base['files'])})"]
     if dmg["error"]:
         bad.append(f"export-raised({dmg['error']})")
     for j, n in enumerate(names):
-        if j == i:
+        if j == i or j in unused:
             continue
         path = f"A/VOL/{n}.wav"
         if n not in dmg["names"]:
@@ -264,6 +271,9 @@ def _small_c14(tier, seed, shard=(0, 1)):
         # the damaged name becomes a sibling's name (second letter B/C/D = 12/13/14)
         for v in (12, 13, 14):
             cases.append((entry, [(1, v)]))
+        # the whole name field blanked / zeroed (multi-byte damage confined to the entry)
+        cases.append((entry, [(o, 10) for o in range(12)]))
+        cases.append((entry, [(o, 0) for o in range(12)]))
     k = 0
     for entry, dmg in cases:
         # excluded by the format: bytes 8..9 == 47 D7 is the end-of-table marker (a truncation, not damage to one entry)
@@ -273,6 +283,17 @@ def _small_c14(tier, seed, shard=(0, 1)):
         k += 1
         if k % shard[1] == shard[0]:
             yield {"model": model, "entry": entry, "damage": [list(x) for x in dmg]}
+    # a table with an UNUSED slot between live files (a deleted file): damage to the entries next to it; and a one-character name blanked
+    names5 = ["AB", "AC", "GONE", "AD", "AE", "F"]
+    model5 = {"partitions": [{"volumes": [_vol("VOL", [_sample(n, 30 + j, 70 + j) for j, n in enumerate(names5)])]}]}
+    extra = []
+    for entry in (0, 1, 3, 4, 5):
+        for dmg in ([(16, 0x11)], [(0, 0xFF)], [(21, 0xFF), (20, 0xFF)], [(16, 0x00)], [(0, 10)], [(17, 0), (18, 0), (19, 0)]):
+            extra.append((entry, dmg))
+    for entry, dmg in extra:
+        k += 1
+        if k % shard[1] == shard[0]:
+            yield {"model": model5, "entry": entry, "damage": [list(x) for x in dmg], "unused": [2]}
 
 
 @contract("e2e:C14", props=["C14"], abstract=True)
